@@ -34,6 +34,7 @@ let () =
         let out =
           match model with
           | "codec" -> (match hd with [k; c] -> run_codec k c ops | _ -> [[n_of_int 98]])
+          | "topics" -> run_topics ops
           | _ -> [[n_of_int 97]] in
         print_groups out
     done
